@@ -35,8 +35,12 @@ func init() {
 }
 
 func runC10(rc *RunCtx) {
-	if rc.S.Tape.Pick(10) == 9 {
+	switch rc.S.Tape.Pick(40) {
+	case 39, 38, 37, 36:
 		runC10Core(rc)
+		return
+	case 35:
+		runC10HA(rc)
 		return
 	}
 	runC10Barrier(rc)
